@@ -49,7 +49,7 @@ func Run(conf core.Config, patterns ...string) *core.Result {
 					continue
 				}
 				switch fd.Name.Name {
-				case "Init", "InitDirection", "initLocal", "InitGlobal", "Reset":
+				case "Init", "InitDirection", "initLocal", "InitGlobal", "Reset", "reset":
 				default:
 					continue
 				}
